@@ -12,6 +12,8 @@ import subprocess
 import sys
 import tempfile
 
+import dds
+
 CHILD = '''
 import sys, os, json, dds
 dds.set_store("local", internal_dir=sys.argv[1], data_dir=sys.argv[2])
@@ -28,6 +30,16 @@ sys._dds_cfg_calls = []  # kept outside the module so that dds does not track it
 def fn():
     sys._dds_cfg_calls.append(1)
     return "cfg-value"
+
+
+def inner_fn():
+    sys._dds_cfg_calls.append("inner")
+    return "inner-value"
+
+
+def outer_fn():
+    sys._dds_cfg_calls.append("outer")
+    return dds.keep("/cfg/nested/inner", inner_fn) + "+outer"
 
 
 def main():
@@ -106,6 +118,25 @@ def main():
             violations.append({"what": "two views on one internal directory: the second view recomputed a blob the first one stored"})
         if dds.load("/cfg/shared") != "cfg-value":
             violations.append({"what": "two views: load through view2 failed"})
+        # a kept function that keeps an intermediate result: the second view holds EVERY path of the evaluation although it
+        # computes nothing (top-level keep, dds.eval of a function that keeps, with and without the object cache)
+        for cache in (None, 2):
+            for entry in ("keep", "eval"):
+                evals += 1
+                i3 = os.path.join(base, "shared_nested_int_%s_%s" % (cache, entry))
+                CALLS.clear()
+                got = []
+                for view in ("nestedA", "nestedB"):
+                    dds.set_store("local", internal_dir=i3, data_dir=os.path.join(base, "%s_%s_%s" % (view, cache, entry)), cache_objects=cache)
+                    try:
+                        r_ = dds.keep("/cfg/nested/outer", outer_fn) if entry == "keep" else dds.eval(outer_fn)
+                        loaded = {p_: dds.load(p_) for p_ in (["/cfg/nested/outer"] if entry == "keep" else []) + ["/cfg/nested/inner"]}
+                    except BaseException as e:
+                        r_, loaded = "<%s: %s>" % (type(e).__name__, str(e)[:100]), None
+                    got.append((r_, loaded, len(CALLS)))
+                want_loaded = dict(([("/cfg/nested/outer", "inner-value+outer")] if entry == "keep" else []) + [("/cfg/nested/inner", "inner-value")])
+                if got[0][:2] != ("inner-value+outer", want_loaded) or got[1][:2] != ("inner-value+outer", want_loaded) or (entry == "keep" and got[1][2] != got[0][2]):
+                    violations.append({"what": "two views on one internal directory, nested keep entered by dds.%s (cache_objects=%r): first view -> %r, second view -> %r (every kept path must load in both views, nothing recomputed in the second)" % (entry, cache, got[0], got[1])})
         # the same with both views alive at the same time (two long-lived processes / notebook kernels): the view created
         # first sees what the other one stores afterwards
         import dds._api as api_
